@@ -411,11 +411,20 @@ impl Xot {
     ///
     /// The XML namespaces rules differ by the kind of name: the name of an
     /// attribute node never takes the default namespace, so it needs a
-    /// non-empty prefix for its namespace.
+    /// non-empty prefix for its namespace; the name of an element that is in
+    /// no namespace cannot be written where a default namespace is in scope.
     pub(crate) fn prefix_for_name(&self, node: Node, name: NameId) -> Result<PrefixId, Error> {
         let namespace = self.namespace_for_name(name);
         let is_attribute = self.is_attribute_node(node);
         if namespace == self.no_namespace() {
+            let is_own_element_name = self.element(node).map(|e| e.name()) == Some(name);
+            if is_own_element_name
+                && self
+                    .namespace_for_prefix(node, self.empty_prefix())
+                    .is_some()
+            {
+                return Err(Error::MissingPrefix("".to_string()));
+            }
             return Ok(self.empty_prefix());
         }
         self.namespace_prefix(node, namespace, is_attribute)
